@@ -108,7 +108,11 @@ def run(ck):
     body_stmts = [k for k in pm.kids(pm.body)]
     handlers = [pm.nodes[j] for t in tries for j in pm.walk(t) if pm.nodes[j]['k'] == 'CXXCatchStmt']
     catches_all = any(h.get('ct') in (None, '', '...') or 'std::exception' in (h.get('ct') or '') for h in handlers)
-    ck.ob('C38.esc', 'C38.esc/whole-body-in-try', len(tries) == 1 and body_stmts == [tries[0]] and catches_all, pm.loc(),
+    THROWING = ('CallExpr', 'CXXMemberCallExpr', 'CXXOperatorCallExpr', 'CXXConstructExpr', 'CXXTemporaryObjectExpr', 'CXXNewExpr', 'CXXThrowExpr',
+                'CXXDynamicCastExpr', 'CXXTypeidExpr', 'LambdaExpr', 'UserDefinedLiteral')
+    outside = [k for k in body_stmts if not tries or k != tries[0]]
+    inert = all(not any(pm.nodes[j]['k'] in THROWING for j in pm.walk(k)) for k in outside)      # e.g. `(void)0;`, a scalar declaration
+    ck.ob('C38.esc', 'C38.esc/whole-body-in-try', len(tries) == 1 and tries[0] in body_stmts and inert and catches_all, pm.loc(),
           'parse_update_metadata consists of one try block with a catch (const std::exception&) / catch (...) handler')
     nthrow = 0
     for f in methods.values():
